@@ -27,10 +27,70 @@ Definition run_op (cf:cfg) (root:machine) (ops:child_ops) (fuel:nat) (rn:rnode) 
   | ODrain val plan => run_m (co_drain ops fuel 0) rn val plan
   | ODrain1 val plan => run_m (co_drain ops fuel 1) rn val plan
   | OReset => (init_rnode root, [])
+  | _ => (rn, [Bad 3])
   end.
 
 (* the active configuration as the introspection API reports it: ids of the root and, recursively,
    of every submachine that is the active state of a region *)
+(* ---- several machine objects: copies, moves, serialization ---- *)
+(* are there stored events anywhere in the object (a copy of a back / back11 machine would share them) *)
+Fixpoint has_pending (rn:rnode) {struct rn} : bool :=
+  let 'RN _ ks _ q d _ _ _ := rn in
+  negb (match q with [] => true | _ => false end) || negb (match d with [] => true | _ => false end) ||
+  (fix go (l:list (option rnode)) : bool :=
+     match l with [] => false | Some k :: t => has_pending k || go t | None :: t => go t end) ks.
+
+(* what a moved-from backmp11 machine looks like: every pool emptied, everything else as before *)
+Fixpoint moved_from (rn:rnode) {struct rn} : rnode :=
+  let 'RN a ks h _ d c p r := rn in
+  RN a ((fix go (l:list (option rnode)) : list (option rnode) :=
+           match l with [] => [] | Some k :: t => Some (moved_from k) :: go t | None :: t => None :: go t end) ks)
+     h [] d c p r.
+
+(* what Boost.Serialization saves and restores: active ids, history, the processing flag, recursively; not the queues *)
+Fixpoint loaded_from (rn:rnode) {struct rn} : rnode :=
+  let 'RN a ks h _ _ _ p r := rn in
+  RN a ((fix go (l:list (option rnode)) : list (option rnode) :=
+           match l with [] => [] | Some k :: t => Some (loaded_from k) :: go t | None :: t => None :: go t end) ks)
+     h [] [] 0%Z p r.
+
+Definition world := list (option rnode).
+Definition wget (w:world) (k:nat) : option rnode := nth k w None.
+
+Definition run_wop (cf:cfg) (root:machine) (ops:child_ops) (fuel:nat) (w:world) (o:op) : world * list titem :=
+  match o with
+  | OOn k o' =>
+      match wget w k with
+      | Some rn => let '(rn', tr) := run_op cf root ops fuel rn o' in (upd w k (Some rn'), tr)
+      | None => (w, [Bad 3])
+      end
+  | OCopy dst src | OAssign dst src =>
+      match wget w src with
+      | Some rn =>
+          (* back / back11 copy the bound closures of pending events: they stay bound to the source object *)
+          (upd w dst (Some rn),
+           match c_be cf with Mp11 => [] | _ => if has_pending rn then [Bad 4] else [] end)
+      | None => (w, [Bad 3])
+      end
+  | OMove dst src =>
+      match wget w src with
+      | Some rn => (upd (upd w dst (Some rn)) src (Some (moved_from rn)), [])
+      | None => (w, [Bad 3])
+      end
+  | OSaveLoad dst src =>
+      match wget w src with
+      | Some rn => (upd w dst (Some (loaded_from rn)), if has_pending rn then [Bad 4] else [])
+      | None => (w, [Bad 3])
+      end
+  | _ =>
+      match wget w 0 with
+      | Some rn => let '(rn', tr) := run_op cf root ops fuel rn o in (upd w 0 (Some rn'), tr)
+      | None => (w, [Bad 3])
+      end
+  end.
+
+Definition init_world (root:machine) : world := [Some (init_rnode root); None; None; None].
+
 Fixpoint snapshot (mc:machine) {struct mc} : rnode -> list nat -> list (list nat * list nat) :=
   let kidsf := map (fun st => match s_sub st with Some c => Some (snapshot c) | None => None end) (m_states mc) in
   fun rn path =>
